@@ -24,6 +24,9 @@ import (
 // microseconds); reaching it means the interpreter loops where Go does not.
 const stepBudget = 40_000_000
 
+// egoBudget is the budget in force (the C10 programs are tiny and use a smaller one).
+var egoBudget int64 = stepBudget
+
 type egoRes struct {
 	Out     string
 	Err     string // Ego error text, "" if the program ended normally
@@ -34,7 +37,7 @@ type egoRes struct {
 func (e egoRes) aborted() bool { return e.Err != "" }
 
 func runEgo(src string, cfg egorun.Config) egoRes {
-	bytecode.VerifStepLimit.Store(atomic.LoadInt64(&bytecode.InstructionsExecuted) + stepBudget)
+	bytecode.VerifStepLimit.Store(atomic.LoadInt64(&bytecode.InstructionsExecuted) + egoBudget)
 	hits := bytecode.VerifBudgetHits.Load()
 	r := egorun.Run(src, cfg)
 	bytecode.VerifStepLimit.Store(0)
@@ -94,7 +97,7 @@ func judge(e egoRes, g gen.GoResult) (class, detail string) {
 	case e.GoPanic != "":
 		return "interpreter-go-panic", firstLine(e.GoPanic)
 	case e.Budget:
-		return "no-termination", "step budget of 40M instructions exhausted; the Go rendering terminated"
+		return "no-termination", "logical step budget exhausted; the Go rendering / the model terminated"
 	case g.Panicked && !e.aborted():
 		return "go-aborts-ego-does-not", "Go panicked: " + g.PanicMsg
 	case !g.Panicked && e.aborted():
